@@ -1,4 +1,5 @@
 import Hive.Model.WorkerPool
+import Hive.Gen.C16_Skel
 /-!
 # Named schedules of the WorkerPool model (C16)
 
@@ -191,5 +192,16 @@ def scRejectRestartSilent : Scenario := { scRejectRestart with name := "reject-r
 def scenarios : List Scenario :=
   [scWindow, scWindowBusy, scGap, scRestart, scStartRace, scHasWork, scForeign, scZeroWorkers, scRejectRestart,
    scRejectRestartSilent]
+
+/-- What happens when a task's `workerFunc` panics, read off the regenerated skeletons: `Task.run` calls `workerFunc`
+and then `markDone` with no deferred function in between, and neither `workerReadLoop`, `handleShutdown` nor `worker`
+defers a function literal (the only place a `recover()` could sit; `worker`'s deferred `liveWorkers.Add` /
+`ShutdownComplete.Done` calls run while the panic unwinds and do not stop it).  The panic therefore leaves the worker
+goroutine and ends the process: `died`.  (A pool that recovered would have to mark the task done — otherwise the pending
+counter never returns to zero; the harness checks that on a tree that survives.) -/
+def taskPanicOutcome : String :=
+  if (Hive.Gen.C16Skel.skel_Task_run ++ Hive.Gen.C16Skel.skel_WorkerPool_workerReadLoop ++
+      Hive.Gen.C16Skel.skel_WorkerPool_handleShutdown ++ Hive.Gen.C16Skel.skel_WorkerPool_worker).any
+        (fun t => t == "defer func{") then "survived" else "died"
 
 end Hive.WP
